@@ -18,6 +18,8 @@ FracSeq == [i \in 1..Len(QuarterNums) |-> Flt(QuarterNums[i], 4)] \o <<Flt(10, 1
 \* (the last four: leading zeros are still decimal - "010" spells ten)
 NumStrs == <<Str(<<51>>), Str(<<45, 50>>), Str(<<50, 46, 53>>), Str(<<48>>), Str(<<45, 48, 46, 50, 53>>), Str(<<49, 48>>),
              Str(<<48, 49, 48>>), Str(<<48, 49, 50>>), Str(<<48, 48, 55>>), Str(<<45, 48, 49, 49>>)>>
+\* numbers as the engine itself prints them beyond 10^6 and below 10^-4: 1e+06  2.5e-05  1.5e3  1E2  -4e+00
+ExpStrs == <<Str(<<49, 101, 43, 48, 54>>), Str(<<50, 46, 53, 101, 45, 48, 53>>), Str(<<49, 46, 53, 101, 51>>), Str(<<49, 69, 50>>), Str(<<45, 52, 101, 43, 48, 48>>)>>
 BadStrs == <<Str(<<97, 98, 99>>), Str(<<>>), Str(<<51, 120>>), Str(<<32>>)>>
 \* whole numbers beyond 32 bits that are exactly 64-bit floats (up to 2^53), as integers and as strings of digits: 2^53,
 \* 2^53 - 1, 2^52, 2^52 + 1, 2^40, 10^12 + 1
@@ -25,7 +27,7 @@ BigDigits == << <<57, 48, 48, 55, 49, 57, 57, 50, 53, 52, 55, 52, 48, 57, 57, 50
                 <<52, 53, 48, 51, 53, 57, 57, 54, 50, 55, 51, 55, 48, 52, 57, 54>>, <<52, 53, 48, 51, 53, 57, 57, 54, 50, 55, 51, 55, 48, 52, 57, 55>>,
                 <<49, 48, 57, 57, 53, 49, 49, 54, 50, 55, 55, 55, 54>>, <<49, 48, 48, 48, 48, 48, 48, 48, 48, 48, 48, 48, 49>> >>
 BigSeq == [i \in 1..Len(BigDigits) |-> BigV(FALSE, BigDigits[i])] \o [i \in 1..Len(BigDigits) |-> Str(BigDigits[i])]
-Recvs == IntSeq \o FracSeq \o NumStrs \o BadStrs \o <<Nil>> \o BigSeq
+Recvs == IntSeq \o FracSeq \o NumStrs \o ExpStrs \o BadStrs \o <<Nil>> \o BigSeq
 IsBigRecv(i) == i > Len(Recvs) - Len(BigSeq)
 Args == IntSeq \o FracSeq \o <<Str(<<51>>), Str(<<97, 98, 99>>), Nil>> \o <<Flt(11, 4), Flt(7, 8), Flt(3, 2), IntV(7), IntV(10), IntV(999)>>
 
@@ -48,9 +50,9 @@ BothNum == XN.r = "num" /\ Len(call.args) = 1 /\ IsNum(call.args[1])
 
 \* ------------------------------------------------------------------ laws
 PlusMinusInverse == (call.name = "plus" /\ BothNum /\ Dec) =>
-                       LET back == F("minus", R.v, call.args) IN back.r = "val" /\ NumEq(back.v, XN.v)
+                       LET back == F("minus", R.v, call.args) IN back.r = "unspec" \/ (back.r = "val" /\ (IsUnspec(back.v) \/ NumEq(back.v, XN.v)))
 Commutative == (call.name \in {"plus", "times"} /\ BothNum /\ Dec) =>
-                  LET sw == F(call.name, call.args[1], <<XN.v>>) IN sw.r = "val" /\ NumEq(sw.v, R.v)
+                  LET sw == F(call.name, call.args[1], <<XN.v>>) IN sw.r = "unspec" \/ (sw.r = "val" /\ (IsUnspec(sw.v) \/ NumEq(sw.v, R.v)))
 FloorCeil == (call.name = "floor" /\ Dec) =>
                 LET c == F("ceil", x, <<>>) IN
                   /\ ~NumLess(XN.v, R.v) /\ ~NumLess(c.v, XN.v)
